@@ -456,6 +456,14 @@ class StdioClient:
             raise
 
     async def __aexit__(self, exc_type, exc, tb):
+        """Shut down; shielded so that an outer cancellation cannot skip the cleanup."""
+        # Leaving because the caller was cancelled (or timed out) must still stop the
+        # tasks and terminate/kill the child. The shutdown is bounded by the two 1 s
+        # grace periods in _terminate_process, so shielding it is safe.
+        with anyio.CancelScope(shield=True):
+            return await self._shutdown(exc_type, exc, tb)
+
+    async def _shutdown(self, exc_type, exc, tb):
         """COMPLETE FIXED VERSION: Handle shutdown without JSON or cancel scope errors."""
         try:
             # Close outgoing stream to signal stdin_writer to exit
